@@ -747,6 +747,53 @@ def r19_merge_guard_arms(body: Text):
             return n
 
 
+def r21_ref_const_field_arms(body: Text):
+    """R21: an arm `V { f: &CONST, rest.. } => A` directly followed by the catch-all arm of the same variant `V { .. } => B`
+    becomes `V { f: verif_f, rest.. } => { if *verif_f == CONST { A } else { B } }` (same first-match semantics: a constant
+    pattern behind a reference is an equality test; this Verus build has no ref patterns)."""
+    n = 0
+    while True:
+        t = body.t
+        code = code_mask(t)
+        done = True
+        for m in re.finditer(r'\bmatch\b', t):
+            if not code[m.start()]:
+                continue
+            i = m.end()
+            depth = 0
+            while i < len(t):
+                if code[i]:
+                    if t[i] in '([':
+                        depth += 1
+                    elif t[i] in ')]':
+                        depth -= 1
+                    elif t[i] == '{' and depth == 0:
+                        break
+                i += 1
+            be = match_brace(t, code, i)
+            arms = _split_arms(t, code, i, be)
+            for a in range(len(arms) - 1):
+                mg = re.match(r'^([\w:]+)\s*\{(.*?)\b(\w+):\s*&([A-Z]\w*(?:::\w+)+)\s*,(.*)\}$', arms[a][2], re.S)
+                if not mg:
+                    continue
+                variant, pre, field, const, post = mg.groups()
+                nxt = re.match(r'^([\w:]+)\s*\{\s*\.\.\s*\}$', arms[a + 1][2])
+                if not nxt or nxt.group(1) != variant:
+                    continue
+                pat = '%s {%s%s: verif_%s,%s}' % (variant, pre, field, field, post)
+                body.edit('R21', arms[a][0], arms[a + 1][1], '%s => { if *verif_%s == %s %s else %s }\n' % (pat, field, const, arms[a][3], arms[a + 1][3]),
+                          'reference-to-constant pattern')
+                n += 1
+                done = False
+                break
+            if not done:
+                break
+        if done:
+            if n == 0:
+                body.lost.append('R21: no `field: &CONST` arm followed by the catch-all arm of the same variant')
+            return n
+
+
 def r20_let_intro(body: Text, needle, tmp):
     """R20: A-normal form for one sub-expression: the (single-line) expression statement containing `needle` becomes
     `{ let tmp = needle; <statement with tmp> }` so that a proof hint can refer to the intermediate value.  Evaluation order
@@ -1022,6 +1069,7 @@ class Unit:
         r8_cfg(t)
         m = re.match(r'\s*(pub(\([a-z]+\))?\s+)?const\s+', t.t)
         t.edit('R13', 0, m.end(), 'pub exec const ')
+        t.sub_code('R16', r":\s*&str\b", ": &'static str")
         # `: TYPE = EXPR;`
         code = code_mask(t.t)
         eq = next(i for i, ch in enumerate(t.t) if ch == '=' and code[i] and t.t[i + 1] != '=' and t.t[i - 1] not in '=!<>')
